@@ -1,6 +1,6 @@
 (* C14 core: NormalizeSlotIndex on 64-bit ints; the repaired order of operations is in range for every hash *)
 From Coq Require Import ZArith Lia.
-Open Scope Z_scope.
+Local Open Scope Z_scope.
 
 Definition MinInt := - 2 ^ 63.
 Definition MaxInt := 2 ^ 63 - 1.
